@@ -404,6 +404,9 @@ class ClientWorldObjectManager:
 
         if actually_updated_props and new_region_state is not None:
             self._run_object_update_hooks(obj, actually_updated_props, update_type, msg)
+        elif new_region_state is not None:
+            # Nothing changed, but anyone who requested this object still got their answer.
+            new_region_state.resolve_futures(obj, update_type)
 
     def _track_new_object(self, region: RegionObjectsState, obj: Object, msg: Message):
         region.track_object(obj)
